@@ -271,6 +271,12 @@ func init() {
 		"unsafe.StringData": nil,
 
 		// math bit casts
+		"math.archLog":         func(fr *frame, args []value) value { return math.Log(concF64(args[0])) },
+		"math.archExp":         func(fr *frame, args []value) value { return math.Exp(concF64(args[0])) },
+		"math.archSqrt":        func(fr *frame, args []value) value { return math.Sqrt(concF64(args[0])) },
+		"math.archFloor":       func(fr *frame, args []value) value { return math.Floor(concF64(args[0])) },
+		"math.archCeil":        func(fr *frame, args []value) value { return math.Ceil(concF64(args[0])) },
+		"math.archTrunc":       func(fr *frame, args []value) value { return math.Trunc(concF64(args[0])) },
 		"math.Float64bits":     func(fr *frame, args []value) value { return math.Float64bits(args[0].(float64)) },
 		"math.Float64frombits": func(fr *frame, args []value) value { return math.Float64frombits(args[0].(uint64)) },
 		"math.Float32bits":     func(fr *frame, args []value) value { return math.Float32bits(args[0].(float32)) },
@@ -1020,4 +1026,13 @@ func (i *interpreter) findMethod(t types.Type, name string) *ssa.Function {
 		return nil
 	}
 	return i.prog.MethodValue(sel)
+}
+
+// concF64: float arguments of math kernels must be concrete (floating point is outside the encoding).
+func concF64(v value) float64 {
+	f, ok := v.(float64)
+	if !ok {
+		panic(pathEnd{kind: "unsupported", msg: "symbolic floating point argument"})
+	}
+	return f
 }
